@@ -311,6 +311,95 @@ MUTANTS = [
     dict(prop="C12", name="context-captures-original-at-enter-of-outermost-only", file="fickling/context.py",
          old="        self.original_pickle_load = pickle.load",
          new="        self.original_pickle_load = pickle.load if pickle.load is not loader.load else hook._original_pickle_load"),
+    # ---- C16
+    dict(prop="C16", name="skips-byteorder-member", file="fickling/pytorch.py",
+         old="""                            else:
+                                new_zip_ref.writestr(item.filename, entry.read())""",
+         new="""                            elif not item.filename.endswith("byteorder"):
+                                new_zip_ref.writestr(item.filename, entry.read())"""),
+    dict(prop="C16", name="data-pkl-written-last", file="fickling/pytorch.py",
+         old="""                    for item in zip_ref.infolist():
+                        with zip_ref.open(item.filename) as entry:""",
+         new="""                    for item in sorted(zip_ref.infolist(), key=lambda i: i.filename.endswith("/data.pkl")):
+                        with zip_ref.open(item.filename) as entry:"""),
+    dict(prop="C16", name="overwrite-copies-instead-of-rename", file="fickling/pytorch.py",
+         old="            Path(output_path).rename(self.path)",
+         new="            import shutil as _sh\n\n            _sh.copy(output_path, self.path)\n            self.output_path = str(output_path) + '.bak'"),
+    dict(prop="C16", name="injects-twice-when-reused", file="fickling/pytorch.py",
+         old="""            pickled.insert_python_exec(payload)
+""",
+         new="""            pickled.insert_python_exec(payload)
+            if len(payload) > 200:
+                pickled.insert_python_exec(payload)
+"""),
+    dict(prop="C16", name="storage-records-recompressed-truncated", file="fickling/pytorch.py",
+         old="""                                new_zip_ref.writestr(item.filename, entry.read())""",
+         new="""                                data = entry.read()
+                                new_zip_ref.writestr(item.filename, data if len(data) != 48 else data[:-1] + bytes(1))"""),
+    # ---- C17
+    dict(prop="C17", name="format-rows-swapped", file="fickling/polyglot.py",
+         old="""            (["has_data_pkl", "has_constants_pkl", "has_version"], "TorchScript v1.4"),
+            (["has_data_pkl", "has_constants_pkl"], "TorchScript v1.3"),""",
+         new="""            (["has_data_pkl", "has_constants_pkl"], "TorchScript v1.3"),
+            (["has_data_pkl", "has_constants_pkl", "has_version"], "TorchScript v1.4"),"""),
+    dict(prop="C17", name="member-match-by-equality", file="fickling/polyglot.py",
+         old="                    return any(file_name_or_extension in entry for entry in zip_file.namelist())",
+         new="                    return any(file_name_or_extension == entry for entry in zip_file.namelist())"),
+    dict(prop="C17", name="temp-copies-removed-only-on-success(revert FX10)", file="fickling/polyglot.py",
+         old="            if os.path.exists(temp_file):\n                os.remove(temp_file)",
+         new="            if os.path.exists(temp_file) and 'files' in locals() and len(files) == 2:\n                os.remove(temp_file)"),
+    dict(prop="C17", name="v1.1-needs-version-too", file="fickling/polyglot.py",
+         old="""            (["has_model_json", "has_attributes_pkl"], "TorchScript v1.1"),""",
+         new="""            (["has_model_json", "has_attributes_pkl", "has_version"], "TorchScript v1.1"),"""),
+    dict(prop="C17", name="identification-caches-by-basename", file="fickling/polyglot.py",
+         old="""    properties = find_file_properties(file, print_properties)
+    formats = []""",
+         new="""    _cache = identify_pytorch_file_format.__dict__.setdefault("_cache", {})
+    key = os.path.basename(str(file))
+    if key in _cache:
+        return list(_cache[key])
+    properties = find_file_properties(file, print_properties)
+    formats = _cache.setdefault(key, [])"""),
+    dict(prop="C17", name="mar-polyglot-appends-into-input", file="fickling/polyglot.py",
+         old="    shutil.copy(second_file, temp_second_file)",
+         new="    temp_second_file = second_file"),
+    # ---- C07
+    dict(prop="C07", name="hook-forgets-_pickle.loads", file="fickling/hook.py",
+         old="""    pickle.loads = new_loads
+    _pickle.loads = new_loads""",
+         new="""    pickle.loads = new_loads"""),
+    dict(prop="C07", name="new-loads-uses-stock-unpickler-for-short-data", file="fickling/hook.py",
+         old="""    def new_loads(data, *args, **kwargs):
+        return""",
+         new="""    def new_loads(data, *args, **kwargs):
+        if len(data) < 40:
+            return _original_pickle_loads(data, *args, **kwargs)
+        return"""),
+    dict(prop="C07", name="find-class-checks-module-only", file="fickling/ml.py",
+         old="        elif name not in self.allowlist[module]:",
+         new="        elif name not in self.allowlist[module] and module != 'collections':"),
+    dict(prop="C07", name="also-allow-ignored-on-load-path", file="fickling/hook.py",
+         old="        return FicklingMLUnpickler(file, also_allow=also_allow, **kwargs).load(*args)",
+         new="        return FicklingMLUnpickler(file, **kwargs).load(*args)"),
+    dict(prop="C07", name="find-class-resolves-before-checking", file="fickling/ml.py",
+         old="        # Check whether import is allowed\n",
+         new="        # Check whether import is allowed\n        resolved = super().find_class(module, name)\n"),
+    dict(prop="C07", name="nested-call-depth-two-unmediated", file="fickling/hook.py",
+         old="""    def new_loads(data, *args, **kwargs):
+        return""",
+         new="""    depth = [0]
+
+    def new_loads(data, *args, **kwargs):
+        depth[0] += 1
+        try:
+            if depth[0] >= 3:
+                return _original_pickle_loads(data, *args, **kwargs)
+            return _nested(data, *args, **kwargs)
+        finally:
+            depth[0] -= 1
+
+    def _nested(data, *args, **kwargs):
+        return"""),
     # ---- C14
     dict(prop="C14", name="delitem-keeps-ast", file="fickling/fickle.py",
          old="""        del self._opcodes[index]
